@@ -15,7 +15,11 @@ Inductive c05_case :=
 (* overlapping DialPeer calls to the same address with different requested peers,
    the dial held in flight by the harness; obs: result code per call, in call
    order (-2 = still waiting) *)
-| Shared (a : Z) (e : list cev) (obs : list Z).
+| Shared (a : Z) (e : list cev) (obs : list Z)
+(* the link obtained by the controller's dialer for (x, a) is lost while the
+   dialer key stays referenced (others: the peer has another link): obs = the
+   peer registered at the address after the controller had time to re-dial *)
+| Redial (x a ra : Z) (others : bool) (e : list env) (obs : Z).
 
 Fixpoint res_lookup (i : nat) (l : list (nat * dres)) : Z :=
   match l with
@@ -31,6 +35,8 @@ Definition c05_agree (c : c05_case) : bool :=
       Z.eqb (match aget ra s with Some p => p | None => 0 end) final
   | Loop x a ra e obs =>
       Z.eqb (match dialer_link (fst (dialer_loop [] x a ra e)) with Some p => p | None => 0 end) obs
+  | Redial x a ra others e obs =>
+      Z.eqb (match aget ra (snd (redial_after_loss others [(ra, x)] x a ra e)) with Some p => p | None => 0 end) obs
   | Shared a e obs =>
       let st := crun a e in
       list_eqb Z.eqb (map (fun i => res_lookup i (c_res st)) (seq 0 (c_next st))) obs
